@@ -115,7 +115,7 @@ def specEntryLoop (strict : Bool) (childDec : Nat → Val → Bytes → Res Val)
           -- `mism`: a key/value record with a wire type other than the declared one
           let skipIt (mism : Bool) : Res (Val × Val) :=
             if strict && mism then .err .wrongWireType else
-            match consumeValue (2 * r.length + 2) 10000 num wt r with
+            match consumeValue (2 * r.length + 2) 10001 num wt r with
             | .ok r' => specEntryLoop strict childDec kk e fuel r' k v
             | .err e => .err e | .panic => .panic
           if num = 1 then
@@ -159,7 +159,7 @@ def specDecodeLoop (strict : Bool) (S : Schema) (i : Nat) (o : UOpts) (childDec 
           -- unknown path: also taken for a known number with a mismatching wire type (`errUnknown`)
           let asUnknown (known : Bool) : Res Val :=
             if strict && known then .err .wrongWireType else
-            match consumeValue (2 * r.length + 2) 10000 num wt r with
+            match consumeValue (2 * r.length + 2) 10001 num wt r with
             | .ok r' =>
               let raw := bs.take (bs.length - r'.length)
               let m' := if o.discard then m else Val.msg m.slots (m.unknown ++ raw)
